@@ -7,11 +7,10 @@ import sys
 from pathlib import Path
 
 os.environ.setdefault('TQDM_DISABLE', '1')
-os.environ.setdefault('PYTHONHASHSEED', '0')
 os.environ['TASKCHAIN_VERIF'] = '1'
-if os.environ.get('PYTHONHASHSEED') != '0' and not os.environ.get('TCVERIF_REEXEC'):
+if os.environ.get('PYTHONHASHSEED') != '0':
+    # string hashing must be the same in every run and every child: restart the interpreter with a fixed seed
     os.environ['PYTHONHASHSEED'] = '0'
-    os.environ['TCVERIF_REEXEC'] = '1'
     os.execv(sys.executable, [sys.executable] + sys.argv)
 
 ROOT = Path(__file__).resolve().parents[1]
